@@ -162,3 +162,95 @@ pub fn c14_reader_contexts(rep: &mut Report) -> bool {
     }
     stuck
 }
+
+/// A user type with hand-written implementations that themselves use the library (a side serialization and
+/// deserialization inside `_serialize_inner` and inside both deserializers).
+#[derive(Debug, Clone, PartialEq)]
+pub struct ReentrantUser {
+    pub x: u64,
+    pub v: Vec<u16>,
+}
+
+impl CopyType for ReentrantUser {
+    type Copy = Deep;
+}
+impl TypeHash for ReentrantUser {
+    fn type_hash(h: &mut impl core::hash::Hasher) {
+        use core::hash::Hash;
+        "ReentrantUser".hash(h);
+        u64::type_hash(h);
+        <Vec<u16>>::type_hash(h);
+    }
+}
+impl AlignHash for ReentrantUser {
+    fn align_hash(h: &mut impl core::hash::Hasher, _off: &mut usize) {
+        u64::align_hash(h, &mut 0);
+        <Vec<u16>>::align_hash(h, &mut 0);
+    }
+}
+fn side_trip(x: u64) -> Option<u64> {
+    let mut side = Vec::new();
+    (x ^ 0x5555).serialize(&mut side).ok()?;
+    u64::deserialize_full(&mut std::io::Cursor::new(&side[..])).ok().map(|y| y ^ 0x5555)
+}
+impl SerializeInner for ReentrantUser {
+    type SerType = Self;
+    const IS_ZERO_COPY: bool = false;
+    const ZERO_COPY_MISMATCH: bool = false;
+    fn _serialize_inner(&self, backend: &mut impl ser::WriteWithNames) -> ser::Result<()> {
+        let x = side_trip(self.x).ok_or(ser::Error::WriteError)?;
+        backend.write("x", &x)?;
+        backend.write("v", &self.v)
+    }
+}
+impl DeserializeInner for ReentrantUser {
+    type DeserType<'a> = ReentrantUser;
+    fn _deserialize_full_inner(backend: &mut impl ReadWithPos) -> deser::Result<Self> {
+        let x = u64::_deserialize_full_inner(backend)?;
+        let x = side_trip(x).ok_or(deser::Error::ReadError)?;
+        let v = <Vec<u16>>::_deserialize_full_inner(backend)?;
+        Ok(ReentrantUser { x, v })
+    }
+    fn _deserialize_eps_inner<'a>(backend: &mut SliceWithPos<'a>) -> deser::Result<Self::DeserType<'a>> {
+        let x = u64::_deserialize_full_inner(backend)?;
+        let x = side_trip(x).ok_or(deser::Error::ReadError)?;
+        let v = <Vec<u16>>::_deserialize_full_inner(backend)?;
+        Ok(ReentrantUser { x, v })
+    }
+}
+
+/// C01 / C02: a user implementation that re-enters the library, at top level and nested in library types.
+pub fn c01_reentrant_user(rep: &mut Report, prop: &str) {
+    let vals: Vec<Vec<ReentrantUser>> = vec![
+        vec![],
+        vec![ReentrantUser { x: 7, v: vec![1, 2, 3] }],
+        (0..40u64).map(|i| ReentrantUser { x: i.wrapping_mul(0x9e37_79b9_7f4a_7c15), v: (0..(i % 5) as u16).collect() }).collect(),
+    ];
+    for v in vals {
+        rep.evaluations += 1;
+        rep.class("user-impl-that-reenters-the-library");
+        rep.nontrivial.insert(crate::report::hash_case(&["reentrant-user"], &vmodel::val::Val::Unit, v.len() as u64));
+        let r = crate::runner::guard(|| -> Result<(), String> {
+            let mut c = <AlignedCursor<maligned::A64>>::new();
+            v.serialize(&mut c).map_err(|e| format!("serialize: {:?}", e))?;
+            let n = c.len();
+            c.set_position(0);
+            let f = <Vec<ReentrantUser>>::deserialize_full(&mut c).map_err(|e| format!("deserialize_full: {:?}", e))?;
+            if f != v {
+                return Err(format!("full copy gives {:?}", f));
+            }
+            let e = <Vec<ReentrantUser>>::deserialize_eps(&c.as_bytes()[..n]).map_err(|e| format!("deserialize_eps: {:?}", e))?;
+            if e != v {
+                return Err(format!("ε-copy gives {:?}", e));
+            }
+            Ok(())
+        });
+        let msg = match r {
+            Ok(Ok(())) => continue,
+            Ok(Err(e)) => e,
+            Err(p) => format!("panicked: {}", p),
+        };
+        rep.failures.push(failure(prop, "reentrant-user-impl", format!("a vector of {} values of a user type whose hand-written implementations use the library themselves does not round-trip: {}", v.len(), msg)));
+        return;
+    }
+}
